@@ -71,14 +71,41 @@ def blocks(f):
     return out
 
 
+SLOT_ATTRS = {"If": ("iftrue", "iffalse"), "While": ("stmt",), "DoWhile": ("stmt",), "For": ("stmt",)}
+
+
+def slots(f):
+    """[(owner node, attribute)] of every brace-less single-statement position of f that holds `;` (a branch or a loop body),
+    preorder: the other kind of statement position, besides the positions of a block"""
+    out = []
+
+    def go(n):
+        for a in SLOT_ATTRS.get(type(n).__name__, ()):
+            if type(getattr(n, a, None)).__name__ == "EmptyStatement":
+                out.append((n, a))
+        for _, _, c in D.children(n):
+            go(c)
+    go(f.body)
+    return out
+
+
 def insert(f, plan):
     """plan: [(block index, position, stmt text)] applied on a deep copy, positions w.r.t. the ORIGINAL
-    lists (several insertions at one position keep their order).  Returns (copy, [inserted nodes])."""
+    lists (several insertions at one position keep their order); block index -1: position = number of a
+    brace-less `;` slot (slots(f)), whose `;` is REPLACED by the statement.  Returns (copy, [inserted nodes])."""
     g = deepcopy(f)
     bl = blocks(g)
+    sl = slots(g)
     ins = []
     by_block = {}
     for b, pos, text in plan:
+        if b == -1:
+            if pos < len(sl):
+                owner, attr = sl[pos]
+                n = parse_stmt(text)
+                setattr(owner, attr, n)
+                ins.append(n)
+            continue
         by_block.setdefault(b, []).append((pos, text))
     for b, lst in by_block.items():
         blk = bl[b]
@@ -279,6 +306,13 @@ def gen_supported(rng):
     for _ in range(30):
         g = S.Gen(rng, edge=0.0, maxdepth=rng.choice([1, 2, 3]))
         src = g.func(name="f", lo=1, hi=5)
+        if rng.random() < 0.35:
+            # brace-less `;` positions: an if with an empty branch next to a supported one, an empty loop body
+            c1, c2 = g.cond(0), g.cond(0)
+            extra = rng.choice([f"if ({c1}) ; else {g.simple()}", f"if ({c1}) {g.simple()} else ;", f"while ({c1}) ;",
+                                f"if ({c1}) ; else {{ {g.simple()} {g.simple()} }}", f"while ({c2}) if ({c1}) ; else {g.simple()}",
+                                f"for (i = 0; i < n; i++) if ({c1}) {g.simple()} else ;"])
+            src = src.rstrip()[:-1] + extra + "\n}\n"
         if rng.random() < 0.15:
             # a labelled block: the gate accepts labels (and does not look below them)
             src = src.rstrip()[:-1] + "LL0: { " + g.simple() + " " + g.simple() + " }\n}\n"
@@ -393,6 +427,12 @@ def run(ctx):
             k = rng.choice([1, 1, 2, 3])
             pool = UNSUP if rng.random() < 0.85 else (UNSUP_D12 if rng.random() < 0.5 else UNSUP_LOOPY)
             plans.append([(*rng.choice(positions), rng.choice(pool)) for _ in range(k)])
+        nsl = len(slots(f))
+        for k in range(min(nsl, 3)):
+            # the brace-less positions: `;` as a branch / loop body replaced by an unsupported statement (expected back: `;`)
+            pool = UNSUP if rng.random() < 0.6 else UNSUP_LOOPY
+            plans.append([(-1, k, rng.choice(pool))])
+            dist["slot_insertions"] = dist.get("slot_insertions", 0) + 1
         plans.append([])
         for plan in plans:
             todo.append((src, plan))
